@@ -184,6 +184,12 @@ H5Snap h5_read(const std::string& file) {
 
 bool h5_write_f32(const std::string& file, const std::string& path,
                   const std::vector<unsigned long long>& dims, const std::vector<float>& data) {
+    return h5_write_as(file, path, dims, data, 'f');
+}
+
+// the same values stored with another element type: 'f' float32, 'd' float64, 'i' int32, 'h' big-endian float32, 'q' int64
+bool h5_write_as(const std::string& file, const std::string& path,
+                 const std::vector<unsigned long long>& dims, const std::vector<float>& data, char stored) {
     H5E_auto2_t oldf; void* olddata;
     H5Eget_auto2(H5E_DEFAULT, &oldf, &olddata);
     H5Eset_auto2(H5E_DEFAULT, nullptr, nullptr);
@@ -194,7 +200,8 @@ bool h5_write_f32(const std::string& file, const std::string& path,
         H5Pset_create_intermediate_group(lcpl, 1);
         std::vector<hsize_t> d(dims.begin(), dims.end());
         hid_t s = d.empty() ? H5Screate(H5S_SCALAR) : H5Screate_simple((int)d.size(), d.data(), nullptr);
-        hid_t ds = H5Dcreate2(f, path.c_str(), H5T_IEEE_F32LE, s, lcpl, H5P_DEFAULT, H5P_DEFAULT);
+        hid_t ft = stored == 'd' ? H5T_IEEE_F64LE : stored == 'i' ? H5T_STD_I32LE : stored == 'q' ? H5T_STD_I64LE : stored == 'h' ? H5T_IEEE_F32BE : H5T_IEEE_F32LE;
+        hid_t ds = H5Dcreate2(f, path.c_str(), ft, s, lcpl, H5P_DEFAULT, H5P_DEFAULT);
         if (ds >= 0) {
             size_t n = 1; for (auto x : dims) n *= (size_t)x;
             ok = true;
